@@ -19,6 +19,7 @@ RULE = ("a counting shim wraps the right-hand side, every callback and every eve
 ASSUMPTIONS = ["faults are synchronous exceptions raised by user callables (the property's text); asynchronous interrupts between bytecodes are not injected",
                "ValueError/LinAlgError raised by the right-hand side inside an integrator step are retried once by the library: admissible outcomes are "
                "'FailedIntegration carrying the cause' or 'completed consistently'"]
+RULE += " Strata added in the fourth seeding round: The statement's second failure kind - tolerances that cannot be met (finite-time blow-up of one component): exception type and cause, status, accurate prefix, dense cover, then the right-hand side is repaired and integrate() must continue to the end; reset() pristine."
 EXHAUSTIVE = {"quick": True, "thorough": True}
 FLOORS = {"quick": {"crash_points": 1500, "faults_fired": 1500, "resumes_checked": 1400, "resets_checked": 1400, "site_stage": 300, "site_event": 200,
                     "site_callback": 30, "site_end_slope": 20, "site_fd_jacobian": 30, "site_newton": 30, "keyboard_interrupts": 100,
